@@ -220,9 +220,13 @@ func (op FixedPoint) Simulate(vm *VM, instr string) error {
 	regDest := get_id(instr[:regBits])
 	regSrc := get_id(instr[regBits : regBits*2])
 
-	switch *op.pipeline {
+	// The phase of the two-step execution belongs to the processor executing the instruction,
+	// not to the (process-wide) opcode object: keep it in the VM
+	phaseKey := op.fpName + "_pipeline"
+	phase, _ := vm.Extra_states[phaseKey].(uint8)
+	switch phase {
 	case FPPUT:
-		*op.pipeline = LQGET
+		vm.Extra_states[phaseKey] = LQGET
 	case LQGET:
 		var dest int64
 		var src int64
@@ -262,7 +266,7 @@ func (op FixedPoint) Simulate(vm *VM, instr string) error {
 			return errors.New("invalid register size, must be <= 64")
 		}
 		vm.Pc = vm.Pc + 1
-		*op.pipeline = LQPUT
+		vm.Extra_states[phaseKey] = LQPUT
 	}
 	return nil
 }
